@@ -57,7 +57,12 @@ fn num_col(rng: &mut Rng) -> &'static str { *rng.pick(&["i", "j", "p", "z", "m",
 fn scalar(rng: &mut Rng, depth: u32) -> String {
     if depth == 0 || rng.chance(1, 3) { return if rng.chance(1, 6) { rng.pick(&["0", "1", "-1", "2", "0.5", "9223372036854775807", "1e308"]).to_string() } else { num_col(rng).to_string() }; }
     let a = scalar(rng, depth - 1);
-    match rng.below(16) {
+    match rng.below(20) {
+        // the remaining mathematical functions the reader accepts (their images on ranges touching 0 or spanning many periods)
+        16 => { let f = *rng.pick(&["log", "log10", "log2"]); format!("{f}({a})") }
+        17 => { let f = *rng.pick(&["sin", "cos", "sign", "floor", "ceil", "round"]); format!("{f}({a})") }
+        18 => format!("least({a}, {})", scalar(rng, depth - 1)),
+        19 => format!("trunc({a})"),
         0 => format!("({a} + {})", scalar(rng, depth - 1)), 1 => format!("({a} - {})", scalar(rng, depth - 1)), 2 => format!("({a} * {})", scalar(rng, depth - 1)),
         3 | 4 => format!("({a} / {})", scalar(rng, depth - 1)), 5 => format!("abs({a})"), 6 => format!("exp({a})"), 7 => format!("ln({a})"), 8 => format!("sqrt({a})"),
         9 => format!("pow({a}, {})", scalar(rng, depth - 1)), 10 => format!("CASE WHEN {a} > 0 THEN {} ELSE {a} END", scalar(rng, depth - 1)), 11 => format!("CAST({a} AS INTEGER)"),
@@ -84,7 +89,7 @@ pub fn gen(rng: &mut Rng, _k: usize, _tier: &str) -> J {
 
 fn shape(sql: &str) -> String {
     let mut v = vec![];
-    for (kw, n) in [(" / ", "div"), ("exp(", "exp"), ("ln(", "ln"), ("sqrt(", "sqrt"), ("pow(", "pow"), ("abs(", "abs"), ("CAST(", "cast"), (" * ", "mul"), ("var(", "var"), ("stddev(", "std"), ("avg(", "avg"), ("sum(", "sum"), ("JOIN", "join"), ("GROUP BY", "group"), ("OFFSET", "offset")] { if sql.contains(kw) { v.push(n); } }
+    for (kw, n) in [(" / ", "div"), ("exp(", "exp"), ("ln(", "ln"), ("log", "log"), ("sqrt(", "sqrt"), ("pow(", "pow"), ("abs(", "abs"), ("CAST(", "cast"), (" * ", "mul"), ("var(", "var"), ("stddev(", "std"), ("avg(", "avg"), ("sum(", "sum"), ("JOIN", "join"), ("GROUP BY", "group"), ("OFFSET", "offset")] { if sql.contains(kw) { v.push(n); } }
     if v.is_empty() { "plain".into() } else { v[..v.len().min(3)].join("+") }
 }
 
